@@ -356,12 +356,7 @@ def apply_op(doc, op):
     if name == "increment":      # "Value increment": the addressed member / array element (since 9cc9d5a) gets the operand added
         parent = get(doc, path[:-1])
         if isinstance(parent, list):
-            if path[-1] == b"-":         # the library's own operation: "-" is the last element, as in its remove/replace/test
-                if not parent:
-                    raise PatchError("no last element")
-                key = len(parent) - 1
-            else:
-                key = arr_index(path[-1], len(parent), False)
+            key = arr_index(path[-1], len(parent), False)     # "-" is no existing element (eca2cba)
         elif isinstance(parent, dict):
             key = path[-1]
             if key not in parent:
@@ -515,11 +510,10 @@ INT_DBL = {0: 0.0, 1: 1.0, 2: 2.0, -1: -1.0, -3: -3.0, 42: 42.0, 4294967296: 429
 OPEN_CLASSES = ("f64-text-compare", "nul-in-string", "increment-overflow", "array-index", "parent-pointers")
 _open_env = [x for x in os.environ.get("VERIF_JPATCH_OPEN", "").split(",") if x]
 # f64-text-compare / nul-in-string are repaired in /repo (ef0c81e, e38ce78): generated on every run.  The others are findings of
-# the deepening round (notes/jpatch.md): increment-overflow (signed overflow in `increment`), array-index (array index segments
+# the deepening round (notes/jpatch.md; repaired since): increment-overflow (signed overflow in `increment`), array-index (array index segments
 # are read with iwatoi; "-" addresses the last element), parent-pointers (children taken over by _jbl_copy_node_data keep the
-# `parent` pointer of the node they came from) - reported only when named in VERIF_JPATCH_OPEN (or "all").
-OPEN_ON = set(["f64-text-compare", "nul-in-string"]) | (set(OPEN_CLASSES) if "all" in _open_env else
-                                                        set(x for x in _open_env if x in OPEN_CLASSES))
+# `parent` pointer of the node they came from).
+OPEN_ON = set(OPEN_CLASSES)     # all repaired in /repo (ef0c81e, e38ce78, 9a2bde2, eca2cba, 61c2a75): generated and judged on every run
 DBL_NEAR_OPEN = [(0.5, 0.500000001), (1e-9, 2e-9), (0.0, 1e-9)]      # equal in "%.8Lf" text; and 0.0 / -0.0 differ in it
 STR_NEAR_OPEN = [("a\x00b", "a\x00c"), ("\x00a", "\x00b"),("x\x00yz", "x\x00zy")]   # same length, equal up to a 0 byte
 
